@@ -38,6 +38,15 @@ UNITS.append(Unit(
     assumptions=["type invariant of queue contents: every element of a process queue is a live EbFifo, of an "
                  "object queue a live EbObjectWrapper (is_fresh in the abstract pop contract)"]))
 
+UNITS.append(Unit(
+    uid="U23.1.ri", prop="C23", harness="harness/c23_ri.c", entry="h_ri", mode="plain",
+    functions=["svt_circular_buffer_empty_check", "svt_circular_buffer_pop_front", "svt_circular_buffer_push_back",
+               "svt_circular_buffer_push_front"], min_obligations=30, cover_functions=[],
+    assumptions=["circular buffer capacity <= 4096 (precondition of the buffer contracts; the encoder's queues hold "
+                 "at most a few hundred entries)"],
+    what="representation invariant of the circular buffer for an arbitrary witness slot: each operation preserves "
+         "it, moves exactly one element and keeps the FIFO position of every other element; empty_check agrees "
+         "with count==0"))
 L2R = ["svt_circular_buffer_push_back", "svt_circular_buffer_push_front", "svt_muxing_queue_assignation"]
 for uid, entry, fn, what in [
     ("U23.4.mq_pushb", "h_mq_pushb", "svt_muxing_queue_object_push_back",
@@ -57,7 +66,8 @@ for uid, entry, fn, defs, repl, what in [
     ("U23.5.get_full", "h_get_full", "svt_get_full_object", [], L3R,
      "announces itself once, then blocks once on its own semaphore holding no mutex, then under the FIFO mutex pops "
      "the HEAD (posting order) unless quit_signal: then NULL + EB_NoErrorFifoShutdown; semaphore invariant kept"),
-    ("U23.5.get_empty", "h_get_empty", "svt_get_empty_object", [], L3R,
+    ("U23.5.get_empty", "h_get_empty", "svt_get_empty_object", ["C23_L3_GETEMPTY"],
+     [r for r in L3R if r != "svt_fifo_pop_front"],
      "same protocol on a producer FIFO; the wrapper handed out is the head, with live_count 0 and release enabled"),
     ("U23.5.get_full_nb", "h_get_full_nb", "svt_get_full_object_non_blocking", ["C23_L3_NONBLOCKING"],
      L3R + ["svt_get_full_object"],
@@ -74,7 +84,7 @@ for uid, entry, fn, defs, repl, what in [
      "quit_signal set under the FIFO mutex, then (mutex released) exactly one post on this FIFO's semaphore"),
 ]:
     UNITS.append(Unit(uid=uid, prop="C23", harness=H, entry=entry, functions=[fn], mode="dfcc", enforce=fn,
-                      replace=list(repl), defines=["C23_L3"] + defs, min_obligations=20, what=what))
+                      replace=list(repl), defines=["C23_L3"] + defs, min_obligations=20, what=what, timeout=300))
 UNITS.append(Unit(
     uid="U23.6.shutdown", prop="C23", harness=H, entry="h_shutdown", functions=["svt_shutdown_process"], mode="dfcc",
     enforce="svt_shutdown_process", replace=["svt_fifo_shutdown", "svt_system_resource_get_consumer_fifo"],
